@@ -139,3 +139,9 @@ Definition entries_close : bool :=
   forallb (fun n => vec_close (entry cube_z greys_z n) (entry xcube_z xgreys_z n)
                     && vec_in_unit (entry cube_z greys_z n) && vec_in_unit (entry xcube_z xgreys_z n))
           palette_indices.
+
+(* the 240 true palette entries once (not per case), and the brute-force minimum over them;
+   Color256Proofs.best_d2_tab_eq: this IS best_d2 at the true positions *)
+Definition palette_entries : list vec := Eval vm_compute in map (entry xcube_z xgreys_z) palette_indices.
+Definition best_d2_tab (v : vec) : Z :=
+  fold_left (fun m e => Z.min m (d2 v e)) palette_entries (d2 v (entry xcube_z xgreys_z 16)).
